@@ -33,6 +33,21 @@ CLAIMED = {
     ),
 }
 
+CLAIMED["C09"] = (
+    "Theorems over option lists and settings of any size: complete characterisation of the command-line fold (a classifier is "
+    "enabled/disabled iff its last mention says so and no later all-switch cleared it), enable/disable disjointness, the ladder "
+    "(ignore silences code and category; explicit code beats category; category beats all-switch; defaults otherwise), config "
+    "'disable beats enable', merge (command-line all-switch resets the config's lists, otherwise lists combine), ignore silences "
+    "after any merge, path-scoped ignores never unload, --verbose listing = loaded set. Model tied to settings.py/loader.py by "
+    "running both on ~20k (config, argv) pairs (exhaustive to length 3/4 over 17 options, every config/CLI split) and by CLI runs.",
+    COMMON_NOTE
+    + "Model (hand-written): lean/RefurbVerif/Model/Settings.lean mirrors parse_command_line_args, parse_config_file, Settings.merge, "
+    "should_load_check. The README's rules are transcribed independently in harness/props/c09.py:selected as the oracle; where the "
+    "README is silent (CLI --enable vs config disable without an all-switch) the implementation's rule is taken as given.",
+    "Lean 4 proof (induction over option lists) + model/implementation correspondence (line protocol) + README oracle",
+    "DESIGN.md §4 C09",
+)
+
 NOT_YET = "check not built yet in this round (work in progress; see DESIGN.md §8 order of work)"
 
 
